@@ -336,6 +336,8 @@ def run(chk, prog, tier):
     check_stale_count(chk, prog)
     check_notify(chk, prog)
     check_clear_resets(chk, prog)
+    from . import join_common
+    join_common.check_constraint_eval(chk, prog)
 
 
 FAST_SUBSET_TABLE = {
